@@ -6,7 +6,7 @@
 set -u
 dir=$1; n=$2; tier=$3; shift 3
 tag=$(basename $dir)-$n
-wt=/tmp/wtseed-$tag; out=/tmp/seedout-$tag
+wt=/tmp/wtseed-$tag-$$; out=/tmp/seedout-$tag-$$
 git -C /repo worktree add -q --detach $wt HEAD || exit 2
 cleanup() { git -C /repo worktree remove --force $wt; rm -rf $out; }
 trap cleanup EXIT
